@@ -212,9 +212,13 @@ fn fbits(f: f64) -> u64 {
     f.to_bits()
 }
 
+const BIG_INTS: [i64; 6] = [9007199254740992, 9007199254740993, 9007199254740994, i64::MAX, i64::MAX - 1, -9007199254740993];
+
 fn gen_value(rng: &mut Rng) -> V {
     match rng.below(10) {
-        0 | 1 | 2 => V::I(*rng.pick(&[0i64, 1, 2, 3, -1, 1, 2])),
+        0 | 1 => V::I(*rng.pick(&[0i64, 1, 2, 3, -1, 1, 2])),
+        // integers that are distinct as i64 but not as f64
+        2 => V::I(*rng.pick(&BIG_INTS)),
         3 | 4 | 5 => V::F(fbits(*rng.pick(&[0.5f64, 1.0, 1.5, 2.0, 0.3, 0.30000000000000004, 1e-20, 0.0, 1.0000000000000002, 3.0]))),
         6 | 7 => V::S(*rng.pick(&["p", "q", "", "pp"])),
         8 => V::B(rng.chance(1, 2)),
@@ -224,7 +228,8 @@ fn gen_value(rng: &mut Rng) -> V {
 
 fn gen_lit(rng: &mut Rng) -> V {
     match rng.below(10) {
-        0 | 1 | 2 | 3 => V::I(*rng.pick(&[0i64, 1, 2, 1, 2, -1])),
+        0 | 1 | 2 => V::I(*rng.pick(&[0i64, 1, 2, 1, 2, -1])),
+        3 => V::I(*rng.pick(&BIG_INTS)),
         4 | 5 | 6 => V::F(fbits(*rng.pick(&[0.3f64, 1.0, 1.5, 0.0, 2.0, 1.0]))),
         7 | 8 => V::S(*rng.pick(&["p", "q"])),
         _ => V::B(rng.chance(1, 2)),
